@@ -652,7 +652,12 @@ func genCase(rt *rapid.T) tcase {
 			inline(25)
 		}
 	case "update":
-		c.Variant = []string{"Update", "Updates(map)", "Updates(struct)", "UpdateColumn", "UpdateColumns(map)"}[x.N(5)]
+		c.Variant = []string{"Update", "Updates(map)", "Updates(struct)", "UpdateColumn", "UpdateColumns(map)", "Updates(map+soft-col)", "UpdateColumns(map+soft-col)"}[x.N(7)]
+		if strings.HasSuffix(c.Variant, "+soft-col)") && (c.Unscoped || c.Flavour == "zerovalue") {
+			// the map also writes the soft-delete column (nil): without Unscoped that changes nothing on
+			// the live rows it may touch; under Unscoped it would restore rows (not what is measured here)
+			c.Variant = "Updates(map)"
+		}
 		pk(c.Parents, 15)
 	case "delete":
 		inline(30)
@@ -778,6 +783,13 @@ func (w *world) model(pk int) interface{} {
 		return &ZParent{ID: pk}
 	}
 	return &Parent{ID: pk}
+}
+
+func (w *world) softColName() string {
+	if w.c.Flavour == "column" {
+		return "removed_on"
+	}
+	return "deleted_at"
 }
 
 func (w *world) markedValue() interface{} {
@@ -1963,6 +1975,10 @@ func (w *world) runUpdate() (string, error) {
 		tx = tx.Updates(map[string]interface{}{"mark": 7})
 	case "Updates(struct)":
 		tx = tx.Updates(w.markedValue())
+	case "Updates(map+soft-col)":
+		tx = tx.Updates(map[string]interface{}{"mark": 7, w.softColName(): nil})
+	case "UpdateColumns(map+soft-col)":
+		tx = tx.UpdateColumns(map[string]interface{}{"mark": 7, w.softColName(): nil})
 	case "UpdateColumn":
 		tx = tx.UpdateColumn("mark", 7)
 	default:
